@@ -8,6 +8,8 @@ def run(ctx):
     # design level: the reference reassembly model (shared with C16) keeps the ghost-state property
     ctx.mc("MC_Reassembler")
     traces = ctx.e2e(E.plan(ctx, [("clean", 5), ("lossy", 12), ("tiny", 6), ("reset", 6), ("late_reset", 6)]))
+    # ... plus every placement of one (thorough: two) fault(s) on the first datagrams of either direction, enumerated by TLC
+    traces.update(ctx.e2e_sched(8, 1 if ctx.quick else 2))
     ctx.validate_families(traces, "Trace_StreamPipe", E.PIPE_KINDS)
     ctx.assume("stream payload is a position-determined function keyed by stream id and sender; 'unaltered, not displaced' = the chunk equals that function at the offsets the specification predicts")
     ctx.assume("the network adversary is AdvNet (drop, duplicate, hold/reorder, corrupt, truncate, MTU drop) driven by the seed; schedules are sampled, not enumerated, in this tier")
